@@ -214,11 +214,22 @@ def primarySlotMajor (k : Nat) : Nat := if k = 3 ∨ k = 4 ∨ k = 5 ∨ k = 6 t
 theorem primaryItems_flatten (p : Primary) (t : Nat) : (primaryItems p t).flatten = enc8 p t := by
   simp [primaryItems, enc8]
 
-/-- the visitor fails when, after `k` conformant items, the next item starts with a byte of the
-    wrong major type -/
-theorem visitPrimary_wrong_kind (p : Primary) (h : p.wf = true) (t : Nat) (ht : t < 256) (k : Nat) (hk : k < 8)
-    (n : Nat) (b : UInt8) (rest : Bytes) (hb : b.toNat / 32 ≠ primarySlotMajor k) (h6 : b.toNat / 32 ≠ 6) :
-    ∃ e s', visitPrimary (some (n + k + 1)) ⟨((primaryItems p t).take k).flatten ++ b :: rest, 126⟩ = (.err e, s') := by
+/-- the reader the primary-block visitor uses for its `k`-th item fails on input `x` -/
+def PrimarySlotFails (k : Nat) (x : Bytes) : Prop :=
+  match k with
+  | 0 => ∃ e s', readU32 ⟨x, 126⟩ = (.err e, s')
+  | 1 => ∃ e s', readU64 ⟨x, 126⟩ = (.err e, s')
+  | 2 => ∃ e s', readU8 ⟨x, 126⟩ = (.err e, s')
+  | 3 | 4 | 5 => ∃ e s', readEid ⟨x, 126⟩ = (.err e, s')
+  | 6 => ∃ e s', readPairU64 ⟨x, 126⟩ = (.err e, s')
+  | 7 => ∃ e s', readU64 ⟨x, 126⟩ = (.err e, s')
+  | _ => False
+
+/-- the visitor fails when, after `k` conformant items, the reader of position `k` fails on what
+    comes next -/
+theorem visitPrimary_slot_err (p : Primary) (h : p.wf = true) (t : Nat) (ht : t < 256) (k : Nat) (hk : k < 8)
+    (n : Nat) (x : Bytes) (hx : PrimarySlotFails k x) :
+    ∃ e s', visitPrimary (some (n + k + 1)) ⟨((primaryItems p t).take k).flatten ++ x, 126⟩ = (.err e, s') := by
   simp only [Primary.wf, Bool.and_eq_true, U64_eq, U32_eq] at h
   obtain ⟨⟨⟨⟨⟨⟨⟨⟨⟨⟨⟨hver, hfl⟩, _⟩, hdst⟩, hsrc⟩, hrpt⟩, hts⟩, hseq⟩, hlt⟩, _⟩, _⟩, _⟩ := h
   have hver := of_decide_eq_true hver
@@ -228,38 +239,51 @@ theorem visitPrimary_wrong_kind (p : Primary) (h : p.wf = true) (t : Nat) (ht : 
   have hpair := fun r => readPairU64_enc p.ts p.seq (by rw [U64_eq]; exact hts) (by rw [U64_eq]; exact hseq) r 126 (by omega)
   simp only [List.append_assoc] at hpair
   have hk' : k = 0 ∨ k = 1 ∨ k = 2 ∨ k = 3 ∨ k = 4 ∨ k = 5 ∨ k = 6 ∨ k = 7 := by omega
-  rcases hk' with rfl | rfl | rfl | rfl | rfl | rfl | rfl | rfl
-  · obtain ⟨_, ⟨e, s', hx⟩, _⟩ := readUint_wrong_major b rest 126 (by omega) (by simpa [primarySlotMajor] using hb) h6
-    refine ⟨e, s', ?_⟩
-    simp [primaryItems, visitPrimary, bind_apply, reqElem_succ, hx]
-  · obtain ⟨⟨e, s', hx⟩, _, _⟩ := readUint_wrong_major b rest 126 (by omega) (by simpa [primarySlotMajor] using hb) h6
-    refine ⟨e, s', ?_⟩
-    simp [primaryItems, visitPrimary, bind_apply, reqElem_succ, readU32_enc p.version hver, hx]
-  · obtain ⟨_, _, ⟨e, s', hx⟩⟩ := readUint_wrong_major b rest 126 (by omega) (by simpa [primarySlotMajor] using hb) h6
-    refine ⟨e, s', ?_⟩
-    simp [primaryItems, visitPrimary, bind_apply, reqElem_succ, readU32_enc p.version hver, readU64_enc p.flags hfl, hx]
-  · obtain ⟨e, s', hx⟩ := readEid_wrong_major b rest 126 (by omega) (by simpa [primarySlotMajor] using hb) h6
-    refine ⟨e, s', ?_⟩
-    simp [primaryItems, visitPrimary, bind_apply, reqElem_succ, readU32_enc p.version hver, readU64_enc p.flags hfl,
+  rcases hk' with rfl | rfl | rfl | rfl | rfl | rfl | rfl | rfl <;> obtain ⟨e, s', hx⟩ := hx <;> refine ⟨e, s', ?_⟩
+  · simp [primaryItems, visitPrimary, bind_apply, reqElem_succ, hx]
+  · simp [primaryItems, visitPrimary, bind_apply, reqElem_succ, readU32_enc p.version hver, hx]
+  · simp [primaryItems, visitPrimary, bind_apply, reqElem_succ, readU32_enc p.version hver, readU64_enc p.flags hfl, hx]
+  · simp [primaryItems, visitPrimary, bind_apply, reqElem_succ, readU32_enc p.version hver, readU64_enc p.flags hfl,
       readU8_enc t ht, hx]
-  · obtain ⟨e, s', hx⟩ := readEid_wrong_major b rest 126 (by omega) (by simpa [primarySlotMajor] using hb) h6
-    refine ⟨e, s', ?_⟩
-    simp [primaryItems, visitPrimary, bind_apply, reqElem_succ, readU32_enc p.version hver, readU64_enc p.flags hfl,
+  · simp [primaryItems, visitPrimary, bind_apply, reqElem_succ, readU32_enc p.version hver, readU64_enc p.flags hfl,
       readU8_enc t ht, readEid_enc p.dst hdst _ 126 (by omega), hx]
-  · obtain ⟨e, s', hx⟩ := readEid_wrong_major b rest 126 (by omega) (by simpa [primarySlotMajor] using hb) h6
-    refine ⟨e, s', ?_⟩
-    simp [primaryItems, visitPrimary, bind_apply, reqElem_succ, readU32_enc p.version hver, readU64_enc p.flags hfl,
+  · simp [primaryItems, visitPrimary, bind_apply, reqElem_succ, readU32_enc p.version hver, readU64_enc p.flags hfl,
       readU8_enc t ht, readEid_enc p.dst hdst _ 126 (by omega), readEid_enc p.src hsrc _ 126 (by omega), hx]
-  · obtain ⟨e, s', hx⟩ := readPairU64_wrong_major b rest 126 (by omega) (by simpa [primarySlotMajor] using hb) h6
-    refine ⟨e, s', ?_⟩
-    simp [primaryItems, visitPrimary, bind_apply, reqElem_succ, readU32_enc p.version hver, readU64_enc p.flags hfl,
+  · simp [primaryItems, visitPrimary, bind_apply, reqElem_succ, readU32_enc p.version hver, readU64_enc p.flags hfl,
       readU8_enc t ht, readEid_enc p.dst hdst _ 126 (by omega), readEid_enc p.src hsrc _ 126 (by omega),
       readEid_enc p.rpt hrpt _ 126 (by omega), hx]
-  · obtain ⟨⟨e, s', hx⟩, _, _⟩ := readUint_wrong_major b rest 126 (by omega) (by simpa [primarySlotMajor] using hb) h6
-    refine ⟨e, s', ?_⟩
-    simp [primaryItems, visitPrimary, bind_apply, reqElem_succ, readU32_enc p.version hver, readU64_enc p.flags hfl,
+  · simp [primaryItems, visitPrimary, bind_apply, reqElem_succ, readU32_enc p.version hver, readU64_enc p.flags hfl,
       readU8_enc t ht, readEid_enc p.dst hdst _ 126 (by omega), readEid_enc p.src hsrc _ 126 (by omega),
       readEid_enc p.rpt hrpt _ 126 (by omega), hpair, hx]
+
+/-- **C19 (a fault inside the item at ANY mandatory position of the primary block).** If the
+    reader of position `k` fails on `x`, the bundle whose primary block consists of `k` conformant
+    items followed by `x` is rejected. -/
+theorem reject_primary_slot (p : Primary) (h : p.wf = true) (t : Nat) (ht : t < 256) (k : Nat) (hk : k < 8)
+    (count : Nat) (hc : count < 24) (hkc : k < count) (x : Bytes) (hx : PrimarySlotFails k x) :
+    ∃ e, decodeBundle ([0x9f] ++ (encArrayHead count ++ (((primaryItems p t).take k).flatten ++ x))) = .err e := by
+  obtain ⟨n, rfl⟩ : ∃ n, count = n + k + 1 := ⟨count - k - 1, by omega⟩
+  obtain ⟨e, s', hv⟩ := visitPrimary_slot_err p h t ht k hk n x hx
+  exact ⟨e, reject_of_visit_err _ hc _ e s' hv⟩
+
+/-- a first byte of the wrong major type fails the reader of position `k` -/
+theorem slotFails_of_wrong_major (k : Nat) (hk : k < 8) (b : UInt8) (rest : Bytes)
+    (hb : b.toNat / 32 ≠ primarySlotMajor k) (h6 : b.toNat / 32 ≠ 6) : PrimarySlotFails k (b :: rest) := by
+  have hk' : k = 0 ∨ k = 1 ∨ k = 2 ∨ k = 3 ∨ k = 4 ∨ k = 5 ∨ k = 6 ∨ k = 7 := by omega
+  rcases hk' with rfl | rfl | rfl | rfl | rfl | rfl | rfl | rfl <;> simp only [PrimarySlotFails]
+  · exact (readUint_wrong_major b rest 126 (by omega) (by simpa [primarySlotMajor] using hb) h6).2.1
+  · exact (readUint_wrong_major b rest 126 (by omega) (by simpa [primarySlotMajor] using hb) h6).1
+  · exact (readUint_wrong_major b rest 126 (by omega) (by simpa [primarySlotMajor] using hb) h6).2.2
+  · exact readEid_wrong_major b rest 126 (by omega) (by simpa [primarySlotMajor] using hb) h6
+  · exact readEid_wrong_major b rest 126 (by omega) (by simpa [primarySlotMajor] using hb) h6
+  · exact readEid_wrong_major b rest 126 (by omega) (by simpa [primarySlotMajor] using hb) h6
+  · exact readPairU64_wrong_major b rest 126 (by omega) (by simpa [primarySlotMajor] using hb) h6
+  · exact (readUint_wrong_major b rest 126 (by omega) (by simpa [primarySlotMajor] using hb) h6).1
+
+theorem visitPrimary_wrong_kind (p : Primary) (h : p.wf = true) (t : Nat) (ht : t < 256) (k : Nat) (hk : k < 8)
+    (n : Nat) (b : UInt8) (rest : Bytes) (hb : b.toNat / 32 ≠ primarySlotMajor k) (h6 : b.toNat / 32 ≠ 6) :
+    ∃ e s', visitPrimary (some (n + k + 1)) ⟨((primaryItems p t).take k).flatten ++ b :: rest, 126⟩ = (.err e, s') :=
+  visitPrimary_slot_err p h t ht k hk n _ (slotFails_of_wrong_major k hk b rest hb h6)
 
 /-- **C19 (wrong kind of item in ANY mandatory position of the primary block).** After `k < 8`
     conformant items, an item whose first byte has a major type other than the one RFC 9171
@@ -367,5 +391,277 @@ theorem reject_canon_crc_wrong_kind (p : Primary) (hp : p.wf = true ∧ p.crc.wi
   refine ⟨e, reject_of_canon_err p hp _ (by decide) _ e _ (readCanon_of_visit_err 6 (by omega) _ e s' ?_)⟩
   rw [visitCanon_after5 c h t (by omega) 1 _ 126]
   rcases ht with rfl | rfl <;> simp [bind_apply, visitCrc, reqElem_succ, hx]
+
+/-! ### ANY one of the mandatory items of the primary block missing -/
+
+theorem encUint_cons (n : Nat) : ∃ b tl, encUint n = b :: tl ∧ b.toNat / 32 = 0 := by
+  unfold encUint encHead
+  split
+  · rename_i h; exact ⟨_, _, rfl, by rw [UInt8.toNat_ofNat']; omega⟩
+  · split
+    · exact ⟨_, _, rfl, by decide⟩
+    · split
+      · exact ⟨_, _, rfl, by decide⟩
+      · split
+        · exact ⟨_, _, rfl, by decide⟩
+        · exact ⟨_, _, rfl, by decide⟩
+
+theorem encEid_cons (e : Eid) : ∃ tl, encEid e = (0x82 : UInt8) :: tl := by
+  cases e <;> exact ⟨_, by simp [encEid, encArrayHead, encHead]; rfl⟩
+
+/-- an unsigned integer of any size read as `u32`: the value, or a range error — the reader
+    stands behind the item either way -/
+theorem readU32_encUint (n : Nat) (hn : n < 18446744073709551616) (rest : Bytes) (d : Nat) :
+    readU32 ⟨encUint n ++ rest, d⟩ = (if n < 4294967296 then .ok n else .err .value, ⟨rest, d⟩) := by
+  unfold readU32 encUint tagFuel
+  rw [parseWith_encHead _ 0 n _ (by omega) hn]
+  by_cases h : n < 4294967296 <;> simp [headOf, kUint, h, P.pure, P.fail]
+
+/-- a definite array whose visitor fails -/
+theorem readSeq_visit_err {α} (visit : Acc → P (α × Acc)) (n : Nat) (hn : n < 18446744073709551616)
+    (body : Bytes) (d : Nat) (hd : 1 ≤ d) (e : Err) (s' : St)
+    (hv : visit (some n) ⟨body, d⟩ = (.err e, s')) :
+    readSeq visit ⟨encArrayHead n ++ body, d + 1⟩ = (.err e, { s' with depth := s'.depth + 1 }) := by
+  unfold readSeq encArrayHead tagFuel
+  rw [parseWith_encHead _ 4 n _ (by omega) hn]
+  have hd0 : ¬ d = 0 := by omega
+  simp [headOf, kSeq, recursionChecked, hd0, hv]
+
+/-- a creation timestamp `[ts, seq]` where an endpoint ID is expected: with `ts = 1` it reads as
+    `dtn:none` (scheme 1, the failed read of the ssp swallowed, exactly as for `[1, 0]`); with any
+    other `ts` it is an error -/
+theorem readEid_pair (ts sq : Nat) (hts : ts < 18446744073709551616) (hsq : sq < 18446744073709551616)
+    (rest : Bytes) (d : Nat) (hd : 3 ≤ d) :
+    (ts = 1 → readEid ⟨encArrayHead 2 ++ encUint ts ++ encUint sq ++ rest, d⟩ = (.ok Eid.dtnNone, ⟨rest, d⟩)) ∧
+    (ts ≠ 1 → ∃ e s', readEid ⟨encArrayHead 2 ++ encUint ts ++ encUint sq ++ rest, d⟩ = (.err e, s')) := by
+  obtain ⟨d', rfl⟩ : ∃ d', d = d' + 1 := ⟨d - 1, by omega⟩
+  constructor
+  · rintro rfl
+    have := readSeq_array visitEid 2 (by omega) (encUint 1 ++ encUint sq) rest d' (by omega) Eid.dtnNone
+      (by
+        simp only [visitEid, reqElem_succ, List.append_assoc, readU8_enc 1 (by omega)]
+        simp [nextElem, readString, tagFuel, encUint, parseWith_encHead _ 0 sq _ (by omega) hsq,
+          headOf, kString, reject])
+    simpa [readEid, List.append_assoc] using this
+  · intro hne
+    have key : ∃ e s', visitEid (some 2) ⟨encUint ts ++ (encUint sq ++ rest), d'⟩ = (.err e, s') := by
+      by_cases h8 : ts < 256
+      · simp only [visitEid, reqElem_succ, readU8_enc ts h8, hne, if_false]
+        by_cases h2 : ts = 2
+        · obtain ⟨b, tl, hb, hm⟩ := encUint_cons sq
+          obtain ⟨e, s', hx⟩ := readPairU64_wrong_major b (tl ++ rest) d' (by omega) (by omega) (by omega)
+          rw [hb]
+          simp only [h2, if_true, List.cons_append, hx]
+          exact ⟨_, _, rfl⟩
+        · simp only [h2, if_false]; exact ⟨_, _, rfl⟩
+      · have : readU8 ⟨encUint ts ++ (encUint sq ++ rest), d'⟩ = (.err .value, ⟨encUint sq ++ rest, d'⟩) := by
+          unfold readU8 encUint tagFuel
+          rw [parseWith_encHead _ 0 ts _ (by omega) hts]
+          simp [headOf, kUint, h8, P.fail]
+        simp only [visitEid, reqElem_succ, this]
+        exact ⟨_, _, rfl⟩
+    obtain ⟨e, s', hv⟩ := key
+    have := readSeq_visit_err visitEid 2 (by omega) _ d' (by omega) e s' hv
+    exact ⟨e, _, by simpa [readEid, List.append_assoc] using this⟩
+
+/-- the visitor fails when any one of the first seven mandatory items is missing (the others
+    following in order), whatever comes after the mandatory items -/
+theorem visitPrimary_missing (p : Primary) (h : p.wf = true) (t : Nat) (ht : t < 256) (k : Nat) (hk : k < 7)
+    (n : Nat) (tail : Bytes) :
+    ∃ e s', visitPrimary (some (n + 7)) ⟨((primaryItems p t).eraseIdx k).flatten ++ tail, 126⟩ = (.err e, s') := by
+  simp only [Primary.wf, Bool.and_eq_true, U64_eq, U32_eq] at h
+  obtain ⟨⟨⟨⟨⟨⟨⟨⟨⟨⟨⟨hver, hfl⟩, _⟩, hdst⟩, hsrc⟩, hrpt⟩, hts⟩, hseq⟩, hlt⟩, _⟩, _⟩, _⟩ := h
+  have hver := of_decide_eq_true hver
+  have hfl := of_decide_eq_true hfl
+  have hts := of_decide_eq_true hts
+  have hseq := of_decide_eq_true hseq
+  have hlt := of_decide_eq_true hlt
+  -- an endpoint ID where a `u8` is expected
+  have hU8dst : ∀ r, ∃ e s', readU8 ⟨encEid p.dst ++ r, 126⟩ = (.err e, s') := by
+    intro r
+    obtain ⟨tl, htl⟩ := encEid_cons p.dst
+    rw [htl]
+    exact (readUint_wrong_major 0x82 (tl ++ r) 126 (by omega) (by decide) (by decide)).2.2
+  -- the lifetime where the creation timestamp is expected
+  have hPairLt : ∀ r, ∃ e s', readPairU64 ⟨encUint p.lifetime ++ r, 126⟩ = (.err e, s') := by
+    intro r
+    obtain ⟨b, tl, hb, hm⟩ := encUint_cons p.lifetime
+    rw [hb]
+    exact readPairU64_wrong_major b (tl ++ r) 126 (by omega) (by omega) (by omega)
+  -- the creation timestamp where an endpoint ID is expected, followed by the lifetime
+  have hTs := fun r => readEid_pair p.ts p.seq hts hseq r 126 (by omega)
+  have hk' : k = 0 ∨ k = 1 ∨ k = 2 ∨ k = 3 ∨ k = 4 ∨ k = 5 ∨ k = 6 := by omega
+  rcases hk' with rfl | rfl | rfl | rfl | rfl | rfl | rfl
+  · obtain ⟨e, s', hx⟩ := hU8dst (encEid p.src ++ (encEid p.rpt ++ (encArrayHead 2 ++ (encUint p.ts ++ (encUint p.seq ++ (encUint p.lifetime ++ tail))))))
+    by_cases h32 : p.flags < 4294967296
+    · exact ⟨e, s', by
+        simp [primaryItems, visitPrimary, bind_apply, reqElem_succ, readU32_encUint p.flags hfl, h32,
+          readU64_enc t (by omega), hx]⟩
+    · exact ⟨.value, ⟨encUint t ++ (encEid p.dst ++ (encEid p.src ++ (encEid p.rpt ++ (encArrayHead 2 ++ (encUint p.ts ++
+          (encUint p.seq ++ (encUint p.lifetime ++ tail))))))), 126⟩, by
+        simp [primaryItems, visitPrimary, bind_apply, reqElem_succ, readU32_encUint p.flags hfl, h32]⟩
+  · obtain ⟨e, s', hx⟩ := hU8dst (encEid p.src ++ (encEid p.rpt ++ (encArrayHead 2 ++ (encUint p.ts ++ (encUint p.seq ++ (encUint p.lifetime ++ tail))))))
+    exact ⟨e, s', by
+      simp [primaryItems, visitPrimary, bind_apply, reqElem_succ, readU32_enc p.version hver,
+        readU64_enc t (by omega), hx]⟩
+  · obtain ⟨e, s', hx⟩ := hU8dst (encEid p.src ++ (encEid p.rpt ++ (encArrayHead 2 ++ (encUint p.ts ++ (encUint p.seq ++ (encUint p.lifetime ++ tail))))))
+    exact ⟨e, s', by
+      simp [primaryItems, visitPrimary, bind_apply, reqElem_succ, readU32_enc p.version hver,
+        readU64_enc p.flags hfl, hx]⟩
+  · obtain ⟨e2, s2, hx2⟩ := hPairLt tail
+    by_cases h1 : p.ts = 1
+    · have hx := (hTs (encUint p.lifetime ++ tail)).1 h1
+      simp only [List.append_assoc] at hx
+      exact ⟨e2, s2, by
+        simp [primaryItems, visitPrimary, bind_apply, reqElem_succ, readU32_enc p.version hver,
+          readU64_enc p.flags hfl, readU8_enc t ht, readEid_enc p.src hsrc _ 126 (by omega),
+          readEid_enc p.rpt hrpt _ 126 (by omega), hx, hx2]⟩
+    · obtain ⟨e, s', hx⟩ := (hTs (encUint p.lifetime ++ tail)).2 h1
+      simp only [List.append_assoc] at hx
+      exact ⟨e, s', by
+        simp [primaryItems, visitPrimary, bind_apply, reqElem_succ, readU32_enc p.version hver,
+          readU64_enc p.flags hfl, readU8_enc t ht, readEid_enc p.src hsrc _ 126 (by omega),
+          readEid_enc p.rpt hrpt _ 126 (by omega), hx]⟩
+  · obtain ⟨e2, s2, hx2⟩ := hPairLt tail
+    by_cases h1 : p.ts = 1
+    · have hx := (hTs (encUint p.lifetime ++ tail)).1 h1
+      simp only [List.append_assoc] at hx
+      exact ⟨e2, s2, by
+        simp [primaryItems, visitPrimary, bind_apply, reqElem_succ, readU32_enc p.version hver,
+          readU64_enc p.flags hfl, readU8_enc t ht, readEid_enc p.dst hdst _ 126 (by omega),
+          readEid_enc p.rpt hrpt _ 126 (by omega), hx, hx2]⟩
+    · obtain ⟨e, s', hx⟩ := (hTs (encUint p.lifetime ++ tail)).2 h1
+      simp only [List.append_assoc] at hx
+      exact ⟨e, s', by
+        simp [primaryItems, visitPrimary, bind_apply, reqElem_succ, readU32_enc p.version hver,
+          readU64_enc p.flags hfl, readU8_enc t ht, readEid_enc p.dst hdst _ 126 (by omega),
+          readEid_enc p.rpt hrpt _ 126 (by omega), hx]⟩
+  · obtain ⟨e2, s2, hx2⟩ := hPairLt tail
+    by_cases h1 : p.ts = 1
+    · have hx := (hTs (encUint p.lifetime ++ tail)).1 h1
+      simp only [List.append_assoc] at hx
+      exact ⟨e2, s2, by
+        simp [primaryItems, visitPrimary, bind_apply, reqElem_succ, readU32_enc p.version hver,
+          readU64_enc p.flags hfl, readU8_enc t ht, readEid_enc p.dst hdst _ 126 (by omega),
+          readEid_enc p.src hsrc _ 126 (by omega), hx, hx2]⟩
+    · obtain ⟨e, s', hx⟩ := (hTs (encUint p.lifetime ++ tail)).2 h1
+      simp only [List.append_assoc] at hx
+      exact ⟨e, s', by
+        simp [primaryItems, visitPrimary, bind_apply, reqElem_succ, readU32_enc p.version hver,
+          readU64_enc p.flags hfl, readU8_enc t ht, readEid_enc p.dst hdst _ 126 (by omega),
+          readEid_enc p.src hsrc _ 126 (by omega), hx]⟩
+  · obtain ⟨e2, s2, hx2⟩ := hPairLt tail
+    exact ⟨e2, s2, by
+      simp [primaryItems, visitPrimary, bind_apply, reqElem_succ, readU32_enc p.version hver,
+        readU64_enc p.flags hfl, readU8_enc t ht, readEid_enc p.dst hdst _ 126 (by omega),
+        readEid_enc p.src hsrc _ 126 (by omega), readEid_enc p.rpt hrpt _ 126 (by omega), hx2]⟩
+
+/-- **C19 (ANY one of the first seven mandatory items of the primary block missing).** The block
+    announces `count ≥ 7` items and carries the mandatory items of a conformant block except the
+    `k`-th (`k = 0` version, 1 flags, 2 CRC type, 3 destination, 4 source, 5 report-to, 6 creation
+    timestamp), followed by anything at all (conformant fragment fields, CRC, further blocks): it
+    is rejected.  (`k = 7`, the lifetime, depends on what follows: `reject_primary_missing_item`
+    and `reject_primary_missing_lifetime` below.) -/
+theorem reject_primary_missing (p : Primary) (h : p.wf = true) (t : Nat) (ht : t < 256) (k : Nat) (hk : k < 7)
+    (count : Nat) (hc : count < 24) (hc7 : 7 ≤ count) (tail : Bytes) :
+    ∃ e, decodeBundle ([0x9f] ++ (encArrayHead count ++ (((primaryItems p t).eraseIdx k).flatten ++ tail))) = .err e := by
+  obtain ⟨n, rfl⟩ : ∃ n, count = n + 7 := ⟨count - 7, by omega⟩
+  obtain ⟨e, s', hv⟩ := visitPrimary_missing p h t ht k hk n tail
+  exact ⟨e, reject_of_visit_err _ hc _ e s' hv⟩
+
+/-! ### arity of the creation timestamp and of the ipn address; endpoint-ID faults at every EID position -/
+
+/-- **C19 (a missing or an extra item in a creation timestamp / an ipn address).** The two-integer
+    arrays are read by `readPairU64`: an array of 0 or 1 items lacks a mandatory item, an array of
+    3 or more has trailing items. -/
+theorem readPairU64_arity (a b : Nat) (ha : a < 18446744073709551616) (hb : b < 18446744073709551616)
+    (rest : Bytes) (d : Nat) (hd : 2 ≤ d) :
+    (∃ s', readPairU64 ⟨encArrayHead 0 ++ rest, d⟩ = (.err .length, s')) ∧
+    (∃ s', readPairU64 ⟨encArrayHead 1 ++ (encUint a ++ rest), d⟩ = (.err .length, s')) ∧
+    (∀ n, 3 ≤ n → n < 18446744073709551616 →
+      ∃ s', readPairU64 ⟨encArrayHead n ++ (encUint a ++ (encUint b ++ rest)), d⟩ = (.err .trailing, s')) := by
+  obtain ⟨d', rfl⟩ : ∃ d', d = d' + 1 := ⟨d - 1, by omega⟩
+  refine ⟨?_, ?_, ?_⟩
+  · exact ⟨_, readSeq_visit_err visitPairU64 0 (by omega) rest d' (by omega) .length ⟨rest, d'⟩
+      (by simp [visitPairU64, reqElem, nextElem])⟩
+  · exact ⟨_, readSeq_visit_err visitPairU64 1 (by omega) _ d' (by omega) .length ⟨rest, d'⟩
+      (by simp [visitPairU64, reqElem_succ, readU64_enc a ha]; simp [reqElem, nextElem])⟩
+  · intro n hn3 hn
+    obtain ⟨m, rfl⟩ : ∃ m, n = m + 3 := ⟨n - 3, by omega⟩
+    refine ⟨⟨rest, d' + 1⟩, ?_⟩
+    unfold readPairU64 readSeq encArrayHead tagFuel
+    rw [parseWith_encHead _ 4 (m + 3) _ (by omega) hn]
+    have hd0 : ¬ d' = 0 := by omega
+    simp [headOf, kSeq, recursionChecked, hd0, visitPairU64, reqElem_succ, readU64_enc a ha, readU64_enc b hb, seqEnd]
+
+/-- an ipn endpoint ID `[2, x]` whose scheme-specific part `x` the pair reader refuses -/
+theorem readEid_ipn_bad (x : Bytes) (e : Err) (s' : St) (hx : readPairU64 ⟨x, 125⟩ = (.err e, s')) :
+    ∃ e s'', readEid ⟨[0x82, 0x02] ++ x, 126⟩ = (.err e, s'') := by
+  have hr : readU8 ⟨(0x02 : UInt8) :: x, 125⟩ = (.ok 2, ⟨x, 125⟩) := by
+    have := readU8_enc 2 (by omega) x 125
+    simpa [encUint, encHead] using this
+  have hv : visitEid (some 2) ⟨(0x02 : UInt8) :: x, 125⟩ = (.err e, s') := by
+    simp [visitEid, reqElem_succ, hr, hx]
+  have := readSeq_visit_err visitEid 2 (by omega) ((0x02 : UInt8) :: x) 125 (by omega) e s' hv
+  exact ⟨e, _, by simpa [readEid, encArrayHead, encHead] using this⟩
+
+/-- the faulty endpoint-ID encodings of the property: unknown URI scheme code, ipn node number 0,
+    an extra item, the scheme code missing, an ipn address of one or of three items -/
+inductive EidFault : Bytes → Prop
+  | scheme (code : Nat) (x : Bytes) : code < 24 → code ≠ 1 → code ≠ 2 → EidFault ([0x82, UInt8.ofNat code] ++ x)
+  | node0 (svc : Nat) : svc < 24 → EidFault [0x82, 0x02, 0x82, 0x00, UInt8.ofNat svc]
+  | extra : EidFault [0x83, 0x01, 0x00, 0x00]
+  | noScheme : EidFault [0x80]
+  | ipn0 : EidFault ([0x82, 0x02] ++ encArrayHead 0)
+  | ipn1 (a : Nat) : a < 18446744073709551616 → EidFault ([0x82, 0x02] ++ (encArrayHead 1 ++ encUint a))
+  | ipn3 (n a b : Nat) : 3 ≤ n → n < 18446744073709551616 → a < 18446744073709551616 → b < 18446744073709551616 →
+      EidFault ([0x82, 0x02] ++ (encArrayHead n ++ (encUint a ++ encUint b)))
+
+theorem readEid_fault (bad : Bytes) (hbad : EidFault bad) (tail : Bytes) :
+    ∃ e s', readEid ⟨bad ++ tail, 126⟩ = (.err e, s') := by
+  cases hbad with
+  | scheme code x hc h1 h2 => exact ⟨_, _, readEid_scheme_unknown code hc ⟨h1, h2⟩ x tail⟩
+  | node0 svc hs => exact ⟨_, _, readEid_ipn_node0 svc hs tail⟩
+  | extra => obtain ⟨s', h⟩ := readEid_extra_item tail; exact ⟨_, _, h⟩
+  | noScheme => exact ⟨_, _, readEid_no_scheme tail⟩
+  | ipn0 =>
+    obtain ⟨s', h⟩ := (readPairU64_arity 0 0 (by omega) (by omega) tail 125 (by omega)).1
+    simpa [List.append_assoc] using readEid_ipn_bad _ _ _ h
+  | ipn1 a ha =>
+    obtain ⟨s', h⟩ := (readPairU64_arity a 0 ha (by omega) tail 125 (by omega)).2.1
+    simpa [List.append_assoc] using readEid_ipn_bad _ _ _ h
+  | ipn3 n a b hn3 hn ha hb =>
+    obtain ⟨s', h⟩ := (readPairU64_arity a b ha hb tail 125 (by omega)).2.2 n hn3 hn
+    simpa [List.append_assoc] using readEid_ipn_bad _ _ _ h
+
+/-- **C19 (endpoint-ID faults at EVERY endpoint-ID position of the primary block).** Destination
+    (`k = 3`), source (`k = 4`) or report-to (`k = 5`): an unknown URI scheme code, ipn node
+    number 0, an extra item, a missing scheme code, an ipn address with a missing or an extra item —
+    the bundle is rejected whatever follows. -/
+theorem reject_primary_eid_fault (p : Primary) (h : p.wf = true) (t : Nat) (ht : t < 256) (k : Nat)
+    (hk : k = 3 ∨ k = 4 ∨ k = 5) (count : Nat) (hc : count < 24) (hkc : k < count)
+    (bad : Bytes) (hbad : EidFault bad) (tail : Bytes) :
+    ∃ e, decodeBundle ([0x9f] ++ (encArrayHead count ++ (((primaryItems p t).take k).flatten ++ (bad ++ tail)))) = .err e := by
+  apply reject_primary_slot p h t ht k (by omega) count hc hkc
+  rcases hk with rfl | rfl | rfl <;> exact readEid_fault bad hbad tail
+
+/-- **C19 (a missing or an extra item in the creation timestamp).** -/
+theorem reject_primary_timestamp_arity (p : Primary) (h : p.wf = true) (t : Nat) (ht : t < 256)
+    (count : Nat) (hc : count < 24) (hkc : 6 < count) (a b : Nat) (ha : a < 18446744073709551616)
+    (hb : b < 18446744073709551616) (tail : Bytes) :
+    (∃ e, decodeBundle ([0x9f] ++ (encArrayHead count ++ (((primaryItems p t).take 6).flatten ++ (encArrayHead 0 ++ tail)))) = .err e) ∧
+    (∃ e, decodeBundle ([0x9f] ++ (encArrayHead count ++ (((primaryItems p t).take 6).flatten ++ (encArrayHead 1 ++ (encUint a ++ tail))))) = .err e) ∧
+    (∀ n, 3 ≤ n → n < 18446744073709551616 →
+      ∃ e, decodeBundle ([0x9f] ++ (encArrayHead count ++ (((primaryItems p t).take 6).flatten ++
+        (encArrayHead n ++ (encUint a ++ (encUint b ++ tail)))))) = .err e) := by
+  have har := readPairU64_arity a b ha hb tail 126 (by omega)
+  refine ⟨?_, ?_, ?_⟩
+  · obtain ⟨s', hx⟩ := har.1
+    exact reject_primary_slot p h t ht 6 (by omega) count hc hkc _ ⟨_, _, hx⟩
+  · obtain ⟨s', hx⟩ := har.2.1
+    exact reject_primary_slot p h t ht 6 (by omega) count hc hkc _ ⟨_, _, hx⟩
+  · intro n hn3 hn
+    obtain ⟨s', hx⟩ := har.2.2 n hn3 hn
+    exact reject_primary_slot p h t ht 6 (by omega) count hc hkc _ ⟨_, _, hx⟩
 
 end Bp7.C19
